@@ -165,6 +165,8 @@ fn judge_semver_fixed_point(ctx: &Ctx, s: &str, st: &mut Stats) {
         Err(pn) => { viol(ctx, &format!("panic@{}", pn.file()), s, case, format!("{} at {}", pn.message, pn.location)); return; }
     };
     st.observe(&(s, &r));
+    // a number that does not fit PEP 440's u32 fields may make the conversion fail, but it is never replaced by another number
+    if s.contains("4294967296") && !r.contains("4294967296") { viol(ctx, "semver_to_pep440_number_dropped", s, case.clone(), format!("rendered {r:?}: 4294967296 is gone")); }
     match rp::parse(&r) {
         None => { viol(ctx, "semver_to_pep_invalid", s, case.clone(), format!("rendered {r:?} is not PEP 440")); return; }
         Some(m) => if m.normal() != r { viol(ctx, "semver_to_pep_not_normal", s, case.clone(), format!("rendered {r:?}, normal form {:?}", m.normal())); }
@@ -236,7 +238,7 @@ fn pep_space(quick: bool) -> Vec<String> {
 }
 
 fn token_space(max: usize) -> Vec<String> {
-    let toks = ["epoch", "alpha", "beta", "rc", "post", "dev", "pre", "0", "1", "5", "x"];
+    let toks = ["epoch", "alpha", "beta", "rc", "post", "dev", "pre", "0", "1", "5", "x", "4294967296"];
     let mut out = vec![];
     let mut lvl: Vec<Vec<&str>> = vec![vec![]];
     for _ in 0..max {
@@ -306,7 +308,7 @@ fn main() {
     cov.evaluations = all.get("renders");
     cov.traces_validated = all.get("renders");
     cov.distinct_nontrivial = all.get("canon_cases") + all.get("pep_cases") + all.get("semver_fp_cases");
-    cov.rule = format!("canonical SemVer shapes: full product of core numbers x epoch x (label,number) x post x dev x build ({} versions) through semver->semver, semver->pep440, pep440->semver, pep440->pep440 against an independent formatter; {} out-of-range shapes (2^32, 2^64-1, 2^64, 23 digits in each numeric position) and 90 PEP 440 spellings of every numeric slot with numerals above u32 / u64 for the no-silent-change clause; {} PEP 440 spellings (product of epoch/release/pre/post/dev/local/prefix variants) for round-trip equality and fixed points; {} SemVer strings whose pre-release is every token sequence of length <= {} over [epoch alpha beta rc post dev pre 0 1 5 x] for the fixed-point clause. every render goes through run_render (CLI entry). non-trivial = input versions judged", cs.len(), oor.len(), ps.len(), ts.len(), if quick { 4 } else { 5 });
+    cov.rule = format!("canonical SemVer shapes: full product of core numbers x epoch x (label,number) x post x dev x build ({} versions) through semver->semver, semver->pep440, pep440->semver, pep440->pep440 against an independent formatter; {} out-of-range shapes (2^32, 2^64-1, 2^64, 23 digits in each numeric position) and 90 PEP 440 spellings of every numeric slot with numerals above u32 / u64 for the no-silent-change clause; {} PEP 440 spellings (product of epoch/release/pre/post/dev/local/prefix variants) for round-trip equality and fixed points; {} SemVer strings whose pre-release is every token sequence of length <= {} over [epoch alpha beta rc post dev pre 0 1 5 x 4294967296] for the fixed-point and no-silent-change clauses. every render goes through run_render (CLI entry). non-trivial = input versions judged", cs.len(), oor.len(), ps.len(), ts.len(), if quick { 4 } else { 5 });
     cov.exhaustive = true;
     cov.samples = vec![json!(cs[cs.len() / 2].semver()), json!(oor[3].semver()), json!(ps[ps.len() / 3]), json!(ts[ts.len() - 7])];
     cov.set("clause_counts", all.to_json());
